@@ -44,8 +44,17 @@ func (p *Program) Flatten(f *Func) *Func {
 	}
 	fl := &flattener{p: p, info: f.Info(), pkg: f.Pkg.Types, stack: map[*Func]bool{f: true}, count: map[*Func]int{}, inlined: map[*Func]bool{}}
 	// the several returns behind a single-exit spelling (see tailReturns)
-	// calls of one-line unexported getters / predicates as the expression they return (see inlineGetters)
-	bodyG, gch := p.inlineGetters(f.Info(), f.Pkg.Types, f.Body)
+	// calls of one-line unexported getters / predicates as the expression they return (see inlineGetters); parameter
+	// objects as the parameters they stand for (see paramObjects)
+	declV := f.Decl
+	if d2 := methodLikeDecl(f); d2 != nil {
+		declV = d2
+	}
+	gi := &getterInliner{p: p, info: f.Info(), pkg: f.Pkg.Types}
+	if d3, sub := p.paramObjDecl(f, declV); d3 != nil {
+		declV, gi.selSubst = d3, sub
+	}
+	bodyG, gch := gi.block(f.Body)
 	body0, tch := tailReturns(f.Info(), bodyG)
 	tch = tch || gch
 	// hand-written element loops as the range loops they stand for (see rangeLoops)
@@ -57,13 +66,13 @@ func (p *Program) Flatten(f *Func) *Func {
 	fl.block(body0)
 	fl.dry = false
 	body, changed := fl.block(body0)
-	if !changed && !tch && methodLikeDecl(f) == nil {
+	if !changed && !tch && declV == f.Decl {
 		p.flat[f] = f
 		return f
 	}
 	ff := &Func{Pkg: f.Pkg, Name: f.Name, Decl: f.Decl, Body: body, Type: f.Type, Members: map[*Func]bool{f: true}, Origin: f}
-	if d2 := methodLikeDecl(f); d2 != nil {
-		ff.Decl, ff.Type = d2, d2.Type // the object parameter shown as the receiver it is
+	if declV != f.Decl {
+		ff.Decl, ff.Type = declV, declV.Type // the object parameter shown as the receiver it is, parameter objects as parameters
 	}
 	for h := range fl.inlined {
 		ff.Members[h] = true
